@@ -86,21 +86,21 @@ def gen_case(rng, cid, tier):
 
 EXPLORE = [
     # (scenario lines, quick runs, thorough runs): systematic depth-first enumeration of all schedules
-    (["pool 1", "job 0", "client w", "main e0"], 600, 10000),
-    (["pool 1", "job 0", "client w", "client w", "main e0"], 600, 10000),          # the D6 shape
-    (["pool 1", "client u", "client u", "main t"], 600, 10000),                    # the D6b shape
-    (["pool 1", "job 0", "client u", "client w", "main e0 t"], 400, 10000),
-    (["pool 2", "job 0", "job 1 e0", "main e1 w"], 400, 10000),
-    (["pool 1", "job 0", "job 1 e0 t", "client w", "main e1 u"], 0, 10000),
-    (["pool 2", "job 0", "client e0 w", "main e0 w"], 0, 10000),
-    (["pool 1", "job 0 x", "client w", "main e0 w"], 400, 10000),                  # a job that throws
-    (["pool 1", "job 0", "job 1 e0 x e0", "main e1 w d"], 320, 10000),              # throws after enqueuing a child
-    (["pool 1 init=2", "client u", "main t"], 320, 10000),                          # terminate() during worker start-up
-    (["pool 1", "job 0", "job 1 t e0 d", "client u", "main e1 u"], 0, 10000),       # enqueue inside a job after terminate
-    (["pool 1", "job 0 i", "main e0 e0 d"], 0, 10000),                              # destruction while jobs are queued
-    (["pool 1", "job 0", "job 1 ~ e0", "client w", "main e1"], 400, 10000),          # the closure's destructor enqueues
-    (["pool 2", "job 0", "job 1 e0 x ~ e0 d", "main e1 w d"], 320, 10000),           # fork-join with a throwing body
-    (["pool 1", "job 0", "job 1 t ~ e0", "client u", "main e1 w"], 0, 10000),        # destructor enqueues after terminate
+    (["pool 1", "job 0", "client w", "main e0"], 600, 6000),
+    (["pool 1", "job 0", "client w", "client w", "main e0"], 600, 6000),          # the D6 shape
+    (["pool 1", "client u", "client u", "main t"], 600, 6000),                    # the D6b shape
+    (["pool 1", "job 0", "client u", "client w", "main e0 t"], 400, 6000),
+    (["pool 2", "job 0", "job 1 e0", "main e1 w"], 400, 6000),
+    (["pool 1", "job 0", "job 1 e0 t", "client w", "main e1 u"], 0, 6000),
+    (["pool 2", "job 0", "client e0 w", "main e0 w"], 0, 6000),
+    (["pool 1", "job 0 x", "client w", "main e0 w"], 400, 6000),                  # a job that throws
+    (["pool 1", "job 0", "job 1 e0 x e0", "main e1 w d"], 320, 6000),              # throws after enqueuing a child
+    (["pool 1 init=2", "client u", "main t"], 320, 6000),                          # terminate() during worker start-up
+    (["pool 1", "job 0", "job 1 t e0 d", "client u", "main e1 u"], 0, 6000),       # enqueue inside a job after terminate
+    (["pool 1", "job 0 i", "main e0 e0 d"], 0, 6000),                              # destruction while jobs are queued
+    (["pool 1", "job 0", "job 1 ~ e0", "client w", "main e1"], 400, 6000),          # the closure's destructor enqueues
+    (["pool 2", "job 0", "job 1 e0 x ~ e0 d", "main e1 w d"], 320, 6000),           # fork-join with a throwing body
+    (["pool 1", "job 0", "job 1 t ~ e0", "client u", "main e1 w"], 0, 6000),        # destructor enqueues after terminate
 ]
 
 
